@@ -163,7 +163,9 @@ func (s *LinearState) Add(ctx *Context, id string, x Map) (string, error) {
 		return id, err
 	}
 
-	bs, err := json.Marshal(&x)
+	// Persist the prepared fact, which has the expiration time
+	// that was computed from any 'ttl'.
+	bs, err := json.Marshal(&m)
 	if err != nil {
 		return id, err
 	}
